@@ -626,7 +626,7 @@ func runIn(sc *Scenario, res *core.Result, verbose bool) {
 	n.Stream = simnet.StreamLink{MinDelay: time.Duration(sc.DelayMs) * time.Millisecond, Jitter: time.Duration(sc.DelayMs) * time.Millisecond, SegMode: sc.SegMode, ShortRead: sc.ShortRead}
 	n.CloseYields = core.Mode == "instr"
 	x := &run{sc: sc, k: k, n: n, res: res, qid: uint16(4000 + sc.RunSeed%1000)}
-	cli, relayC := n.Pair(false)
+	cli, relayC := n.Pair(true)
 	x.cliConn = cli
 	var relayS *simnet.StreamConn
 	if sc.Sender == "out" {
@@ -685,17 +685,35 @@ func (x *run) judge(start0 time.Time) {
 	}
 	delivered := x.relay.Out["s2c"]
 	original := x.relay.In["s2c"]
-	// what reached the receiver = the forwarded messages it read completely
-	// (a cut link, a stalled middlebox or its own timeout may have ended its
-	// reading earlier)
+	// What reached the receiver in time - decided from the link's arrival times
+	// and the consumer's own pace, not from what the library chose to read: the
+	// receiver re-arms its read timeout before every envelope, so envelope i is
+	// in time when its last octet arrives within ReadTimeout of the instant the
+	// receiver could start waiting for it (arrival of the previous envelope, or
+	// the consumer taking it, whichever is later).
 	{
+		T := time.Duration(sc.TimeoutMs) * time.Millisecond
+		prev := start0
 		acc, whole := 0, 0
-		for _, f := range delivered {
-			if acc+2+len(f) <= x.cliConn.ReadTotal {
-				whole++
-				acc += 2 + len(f)
-			} else {
+		for i, f := range delivered {
+			acc += 2 + len(f)
+			at, ok := x.cliConn.ArrivedAt(acc)
+			if !ok {
 				break
+			}
+			slack := at.Sub(prev.Add(T))
+			if slack > -3*time.Millisecond && slack < 3*time.Millisecond {
+				res.Bump("cover.not_judged_deadline_edge")
+				x.alwaysChecks()
+				return
+			}
+			if slack >= 0 {
+				break // too late: the receiver's read had timed out by then
+			}
+			whole++
+			prev = at
+			if i < len(x.items) && x.items[i].t.After(prev) {
+				prev = x.items[i].t
 			}
 		}
 		if whole < len(delivered) {
